@@ -60,7 +60,7 @@ def h_pb_init(E):
     E.oblige("canary.init", C.compare("==", pb.fields["max_priority"], 2), assume_after=False)
 
 
-def sampling_law(E, prefix, idx, ln, weight, Bsz, unit, cs, S):
+def sampling_law(E, prefix, idx, ln, weight, Bsz, unit, cs, S, using=None):
     """interval law for every drawn position q"""
     lnz = C.to_z3(ln)
 
@@ -71,7 +71,7 @@ def sampling_law(E, prefix, idx, ln, weight, Bsz, unit, cs, S):
         return z3.Implies(z3.And(q >= 0, q < C.to_z3(Bsz)),
                           z3.And(i >= 0, i < lnz, weight(i) > 0, lo < u * S, u * S <= cs(i)))
 
-    E.st.oblige_forall(f"{prefix}.interval_law", [INT], goal, hint="q")
+    E.st.oblige_forall(f"{prefix}.interval_law", [INT], goal, hint="q", using=using)
 
 
 def mk_pb_sampling(masked):
